@@ -113,6 +113,37 @@ def main():
             server.terminate(timeout=2, force=True)
         except Exception:
             pass
+    if name in ('reset_after_ctrl', 'all'):
+        # a client that completes the handshake up to the control connection and is then killed (both its sockets RESET) while the server is spawning
+        # the backend: the backend finds its data socket dead; the accept loop must not wait for ever for a report that will never come
+        import struct
+        server4 = spawn_server(('127.0.0.1', 0))
+        try:
+            for variant in ('reset (RST)', 'closed (FIN)'):
+                w = RemoteWorker(T.square, args=(3,), host=server4.addr, run=False)
+                s = raw(server4.addr)
+                send_msg(s, (None, True))
+                send_msg(s, w)
+                ctrl_addr = recv_msg(s)
+                c = socket.create_connection(tuple(ctrl_addr), timeout=3)
+                for x in (c, s):
+                    if 'RST' in variant:
+                        x.setsockopt(socket.SOL_SOCKET, socket.SO_LINGER, struct.pack('ii', 1, 0))
+                    x.close()
+                time.sleep(2.0)
+                if not server4.is_alive():
+                    viol.append(f'server process died after a client that had connected its control channel was {variant} while the backend was being spawned')
+                    break
+                ok, why = server_serves(server4.addr)
+                obs[f'serves_after_client_{variant.split()[0]}_after_ctrl'] = ok
+                if not ok:
+                    viol.append(f'a client that connected its control channel and was then {variant} while the server was spawning its backend blocks the server: ' + why)
+                    break
+        finally:
+            try:
+                server4.terminate(timeout=2, force=True)
+            except Exception:
+                pass
     if name in ('reset_in_handshake', 'all'):
         # a client that sends a complete worker request and is then RESET (killed; its data socket has SO_LINGER 0) while the server is between reading the
         # request and answering it.  The window is selected by descheduling the server there (line injector, SLEEP: nothing is raised or patched).
